@@ -231,4 +231,24 @@ UnmockShapes(NM, Rs) ==
       /\ Len(sh.entries) = sh.n /\ sh.target <= sh.n
       /\ (sh.nested => sh.entries[sh.target] = "path")
       /\ (sh.async => sh.recv \in {"ref", "own"}) }
+
+(***************************************************************************)
+(* C15: default-method delegation per receiver kind.                       *)
+(* trait: fn req(&self, x: u8) -> u32;                                     *)
+(*        fn dflt(RECV, a: u8, b: &str) -> u32 { self.req(a) + self.req(a+1) + ... + 1000 }  *)
+(* The required method is configured to return 10 * x; `direct` direct     *)
+(* calls req(1) precede the delegated call dflt(5, "s"); the required      *)
+(* patterns are either one unordered pattern with an exact total count or  *)
+(* one ordered pattern per expected call, so the final verification is     *)
+(* silent exactly when every call was evaluated by the same mock state.    *)
+(***************************************************************************)
+RECURSIVE SumReq(_, _)
+SumReq(a, n) == IF n = 0 THEN 0 ELSE 10 * (a + n - 1) + SumReq(a, n - 1)
+DelegateShapes == { sh \in [recv : Recvs, nreq : 0..3, explicit : BOOLEAN, direct : 0..1, ordered : BOOLEAN, shared : BOOLEAN] :
+                      (sh.shared => sh.recv \in {"rc", "arc"}) }
+DelegateExpected(sh) ==
+  [ret |-> 1000 + SumReq(5, sh.nreq),
+   body |-> <<"5", "&s">>,
+   reqcalls |-> [i \in 1..(sh.direct + sh.nreq) |-> IF i <= sh.direct THEN 1 ELSE 5 + (i - sh.direct - 1)],
+   verdict |-> "silent"]
 =============================================================================
